@@ -18,7 +18,7 @@ class Prop(BaseProp):
             "sum = total spikes); generate_poisson_spikes under a seeded numpy RNG for rates spanning 1e-3..1e3 spikes per "
             "recording on shifted intervals (T_start > 0, < 0, scalar form): sorted, inside [T_start, T_end), edges carried. "
             "distinct = (kind, interleaving word / bin regime / rate regime)")
-    budget = {"quick": 1500, "thorough": 30000}
+    budget = {"quick": 3000, "thorough": 1500000}
     must_see = ["merge", "merge_cross_train_duplicates", "merge_empty_train", "merge_single_train", "merge_spike_on_t_end",
                 "psth", "psth_non_divisor", "psth_spike_on_t_end", "psth_bin_equals_T", "poisson", "poisson_scalar_interval",
                 "poisson_shifted_start", "poisson_negative_start", "poisson_empty_result", "poisson_many_spikes"]
